@@ -17,10 +17,10 @@ import (
 // Data only. Roles are determined by data flow in the code, never by position.
 
 var specLabels = map[string][2]string{ // role -> {salt, info}
-	"setup-encrypt-key":    {"Pair-Setup-Encrypt-Salt", "Pair-Setup-Encrypt-Info"},
-	"setup-controller-sign": {"Pair-Setup-Controller-Sign-Salt", "Pair-Setup-Controller-Sign-Info"},
-	"setup-accessory-sign": {"Pair-Setup-Accessory-Sign-Salt", "Pair-Setup-Accessory-Sign-Info"},
-	"verify-encrypt-key":   {"Pair-Verify-Encrypt-Salt", "Pair-Verify-Encrypt-Info"},
+	"setup-encrypt-key":               {"Pair-Setup-Encrypt-Salt", "Pair-Setup-Encrypt-Info"},
+	"setup-controller-sign":           {"Pair-Setup-Controller-Sign-Salt", "Pair-Setup-Controller-Sign-Info"},
+	"setup-accessory-sign":            {"Pair-Setup-Accessory-Sign-Salt", "Pair-Setup-Accessory-Sign-Info"},
+	"verify-encrypt-key":              {"Pair-Verify-Encrypt-Salt", "Pair-Verify-Encrypt-Info"},
 	"session-accessory-to-controller": {"Control-Salt", "Control-Read-Encryption-Key"},
 	"session-controller-to-accessory": {"Control-Salt", "Control-Write-Encryption-Key"},
 }
@@ -362,7 +362,10 @@ func c04r2(c *core.Ctx) {
 		ok := false
 		core.Instrs(ctor, func(i ssa.Instruction) {
 			if core.Callee(i) == f {
-				ok = core.AnySource(core.Args(i)[1], func(s ssa.Value) bool { call, ok := s.(*ssa.Call); return ok && core.IsInvoke(call, mod+"/hap.SecuredDevice", "Pin") })
+				ok = core.AnySource(core.Args(i)[1], func(s ssa.Value) bool {
+					call, ok := s.(*ssa.Call)
+					return ok && core.IsInvoke(call, mod+"/hap.SecuredDevice", "Pin")
+				})
 			}
 		})
 		c.Check(ok, "srp-pin-source", ctor.Pos(), "pin = device.Pin()", "the SRP session is not created with device.Pin()")
